@@ -61,16 +61,21 @@ Proof.
   - intros L. apply rm_toks_all_kept. lia.
 Qed.
 
-(* rm-tok-pattern-N: output iff the window start idx / 2^(N-1) is below the number of non-blank tokens;
-   blank tokens are never removed; the output is a subsequence of the tokens.  PARTIAL: which
-   members of the window are removed (the bits of the pattern) is tied by the correspondence run only *)
-Theorem C18_rm_tok_pattern_partial :
+(* rm-tok-pattern-N at index idx: window start = idx / 2^(N-1), pattern = 1 + 2 * (idx mod 2^(N-1)) read as
+   bits, least significant first: output iff the start is below the number of non-blank tokens; blank
+   tokens are never removed; the output is a subsequence; the non-blank token of rank w is removed iff
+   start <= w < start + N and bit (w - start) of the pattern is set (bit 0 always is) *)
+Theorem C18_rm_tok_pattern :
   forall n idx ts, 1 <= n ->
-  ((exists out, rm_pattern n idx ts = Exit true out) <-> idx / 2 ^ (n - 1) < length (nbs ts)) /\
-  (forall which started pat, filter blank (snd (rm_pat_go n idx ts which started pat)) = filter blank ts) /\
-  (forall which started pat, subseq (snd (rm_pat_go n idx ts which started pat)) ts).
+  let start := idx / 2 ^ (n - 1) in
+  let pat := bits 8 (1 + 2 * (idx mod 2 ^ (n - 1))) in
+  ((exists out, rm_pattern n idx ts = Exit true out) <-> start < length (nbs ts)) /\
+  filter blank (snd (rm_pat_go n start ts 0 false pat)) = filter blank ts /\
+  subseq (snd (rm_pat_go n start ts 0 false pat)) ts /\
+  nbs (snd (rm_pat_go n start ts 0 false pat)) = pat_spec start n pat (nbs ts) 0.
 Proof.
-  intros n idx ts N. split; [apply rm_pattern_ok; exact N|split; intros; [apply rm_pat_blanks|apply rm_pat_subseq]].
+  intros n idx ts N start pat. split; [apply rm_pattern_ok; exact N|]. split; [apply rm_pat_blanks|].
+  split; [apply rm_pat_subseq|]. apply rm_pat_nbs. left. repeat split; lia.
 Qed.
 
 (* for every mode the indices that produce output are a prefix 0..k-1 of the naturals *)
